@@ -3,6 +3,7 @@
 mod apr;
 mod cek;
 mod core_eta;
+mod core_shadow;
 mod gen_axcut;
 mod gen_fun;
 mod emu;
